@@ -1,4 +1,5 @@
 import TmcgProofs.Codec
+import TmcgProps.C11Io2
 /-
   C11 — Export and import round-trip every object unchanged.
   Part 1: integers in the textual transport encoding, discrete-log cards, card secrets, stacks and
